@@ -7,9 +7,11 @@ import (
 	"bytes"
 	"crypto"
 	"crypto/hmac"
+	"encoding/hex"
 	"fmt"
 	"io"
 	"net"
+	"net/netip"
 	"os"
 	"strconv"
 	"strings"
@@ -201,10 +203,24 @@ func execSecret(desc string) string {
 	n := hx.KVInt(desc, "n")
 	calls := hx.KVInt(desc, "calls")
 	shared := &dtlcp.Config{CookieSecret: cfg}
+	var readers []*chunkReader
+	if rs, ok := hx.KV(desc, "rand"); ok {
+		chunk, streams := parseRand(rs)
+		if len(streams) != n {
+			return "badrand"
+		}
+		for _, st := range streams {
+			readers = append(readers, &chunkReader{stream: st, chunk: chunk})
+		}
+	}
 	var secrets [][]byte
 	stable := true
 	for i := 0; i < n; i++ {
-		c := dtlcp.Server(nil, nil, shared)
+		conf := shared
+		if readers != nil { // every connection has its own random source
+			conf = &dtlcp.Config{CookieSecret: cfg, Rand: readers[i]}
+		}
+		c := dtlcp.Server(nil, nil, conf)
 		first := dtlcp.VerifEffectiveCookieSecret(c)
 		for j := 1; j < calls; j++ {
 			if !bytes.Equal(first, dtlcp.VerifEffectiveCookieSecret(c)) {
@@ -227,7 +243,68 @@ func execSecret(desc string) string {
 			}
 		}
 	}
-	return fmt.Sprintf("lens=%s stable=%s distinct=%s iscfg=%s", strings.Join(lens, "."), b01(stable), b01(distinct), b01(iscfg))
+	out := fmt.Sprintf("lens=%s stable=%s distinct=%s iscfg=%s", strings.Join(lens, "."), b01(stable), b01(distinct), b01(iscfg))
+	if readers != nil {
+		var sec, drawn []string
+		for i, s := range secrets {
+			sec = append(sec, hx.Hex(s))
+			drawn = append(drawn, strconv.Itoa(readers[i].taken()))
+		}
+		out += fmt.Sprintf(" sec=%s drawn=%s", strings.Join(sec, ";"), strings.Join(drawn, "."))
+	}
+	return out
+}
+
+// chunkReader is a Config.Rand that produces a given byte stream (continued deterministically
+// when it runs out) and returns at most `chunk` bytes per Read, without error: a legal io.Reader
+// that makes short reads (a chunking hardware RNG, a pipe, iotest.OneByteReader).
+type chunkReader struct {
+	mu     sync.Mutex
+	stream []byte
+	chunk  int
+	off    int
+}
+
+func (r *chunkReader) at(i int) byte {
+	if i < len(r.stream) {
+		return r.stream[i]
+	}
+	blk := (i - len(r.stream)) / 32
+	h := sm3.Sum(append(append([]byte("c18-rand-continuation"), r.stream...), byte(blk>>24), byte(blk>>16), byte(blk>>8), byte(blk)))
+	return h[(i-len(r.stream))%32]
+}
+
+func (r *chunkReader) Read(p []byte) (int, error) {
+	r.mu.Lock()
+	defer r.mu.Unlock()
+	k := r.chunk
+	if k > len(p) {
+		k = len(p)
+	}
+	for i := 0; i < k; i++ {
+		p[i] = r.at(r.off + i)
+	}
+	r.off += k
+	return k, nil
+}
+
+func (r *chunkReader) taken() int { r.mu.Lock(); defer r.mu.Unlock(); return r.off }
+
+// parseRand reads `<chunk>/<stream hex>;<stream hex>…`
+func parseRand(s string) (int, [][]byte) {
+	p := strings.SplitN(s, "/", 2)
+	if len(p) != 2 {
+		panic("bad rand " + s)
+	}
+	chunk, _ := strconv.Atoi(p[0])
+	if chunk < 1 {
+		panic("bad rand chunk " + s)
+	}
+	var streams [][]byte
+	for _, x := range strings.Split(p[1], ";") {
+		streams = append(streams, hx.UnHex(x))
+	}
+	return chunk, streams
 }
 
 // ---------------------------------------------------------------------------- server level
@@ -401,13 +478,58 @@ func joinInts(xs []int) string {
 	return strings.Join(ss, ".")
 }
 
+// mkAddr builds the net.Addr of a peer: kind 's' an opaque address printing `text`, 'u' a
+// *net.UDPAddr parsed from the text host:port (4-byte IP for IPv4, zone kept), 'm' the same with
+// the IPv4 address held in its 16-byte IPv4-mapped form (what a dual-stack socket reports).
+// A fresh value on every call, like ReadFrom. portDelta != 0: the same host with another port.
+func mkAddr(kind byte, text string, portDelta int) (net.Addr, bool) {
+	if kind == 's' {
+		return strAddr(text), true
+	}
+	ap, err := netip.ParseAddrPort(text)
+	if err != nil {
+		return nil, false
+	}
+	port := int(ap.Port())
+	if portDelta != 0 {
+		port = (port+portDelta-1)%65535 + 1
+	}
+	ua := &net.UDPAddr{IP: net.IP(ap.Addr().AsSlice()), Port: port, Zone: ap.Addr().Zone()}
+	if kind == 'm' {
+		if !ap.Addr().Is4() {
+			return nil, false
+		}
+		a16 := ap.Addr().As16()
+		ua.IP = net.IP(a16[:])
+	}
+	return ua, true
+}
+
 func execServer(desc string) string {
 	v, _ := hx.KV(desc, "cfg")
 	cfgSecret := hx.UnHex(v)
 	ps, _ := hx.KV(desc, "peers")
-	var peers []strAddr
+	pk, havePk := hx.KV(desc, "pk")
+	if !havePk {
+		pk = "ss"
+	}
+	var peerText []string
 	for _, p := range strings.Split(ps, ";") {
-		peers = append(peers, strAddr(hx.UnHex(p)))
+		peerText = append(peerText, string(hx.UnHex(p)))
+	}
+	if len(pk) != len(peerText) {
+		return "badpk"
+	}
+	peerOf := func(i, portDelta int) net.Addr {
+		a, ok := mkAddr(pk[i], peerText[i], portDelta)
+		if !ok {
+			panic("bad peer " + peerText[i])
+		}
+		return a
+	}
+	var peers []net.Addr
+	for i := range peerText {
+		peers = append(peers, peerOf(i, 0))
 	}
 	hsS, _ := hx.KV(desc, "hellos")
 	var hellos []hello
@@ -436,12 +558,41 @@ func execServer(desc string) string {
 		cfg.InitialRetransmitTimeout = time.Duration(rto) * time.Millisecond
 		cfg.MaxRetransmitTimeout = 2 * cfg.InitialRetransmitTimeout
 	}
+	if cs, ok := hx.KV(desc, "cache"); ok { // sessions the server has cached beforehand
+		cfg.SessionCache = dtlcp.NewLRUSessionCache(64)
+		for _, e := range strings.Split(cs, ";") {
+			q := strings.Split(e, "/")
+			if len(q) != 2 {
+				return "badcache"
+			}
+			sid, su := hx.UnHex(q[0]), hx.UnHex(q[1])
+			if len(su) != 2 {
+				return "badcache"
+			}
+			master := bytes.Repeat([]byte{0x3c}, 48)
+			cfg.SessionCache.Put(hex.EncodeToString(sid), dtlcp.VerifMakeSession(sid, dtlcp.VersionTLCP, uint16(su[0])<<8|uint16(su[1]), master))
+		}
+	}
+	cfgs := []*dtlcp.Config{cfg, cfg}
+	var streams [][]byte
+	if rs, ok := hx.KV(desc, "rand"); ok { // own random source per connection, short reads
+		chunk, st := parseRand(rs)
+		if len(st) != 2 || len(cfgSecret) != 0 {
+			return "badrand"
+		}
+		streams = st
+		for i := range cfgs {
+			cp := cfg.Clone()
+			cp.Rand = &chunkReader{stream: st[i], chunk: chunk}
+			cfgs[i] = cp
+		}
+	}
 	conns := make([]*srvConn, 2)
 	var wg sync.WaitGroup
 	start := func(i int) {
 		sc := newSrvConn()
 		conns[i] = sc
-		c := dtlcp.Server(sc, peers[i], cfg)
+		c := dtlcp.Server(sc, peers[i], cfgs[i])
 		wg.Add(1)
 		go func() {
 			defer wg.Done()
@@ -529,9 +680,33 @@ func execServer(desc string) string {
 			} else {
 				cookie = bytes.Repeat([]byte{0x5c}, 32)
 			}
+		case p[2][0] == 'g':
+			// forged without ever seeing a HelloVerifyRequest: the cookie for this very address and
+			// hello under a guessed secret = the first n bytes of the connection's random stream, zeros
+			// elsewhere (what a secret filled by too few random bytes would be)
+			n, _ := strconv.Atoi(p[2][1:])
+			if streams == nil || n > 32 || n > len(streams[ci]) {
+				return "badstep=" + st
+			}
+			guess := make([]byte, 32)
+			copy(guess, streams[ci][:n])
+			b := hellos[hi].body(nil, nil)
+			ok, _, params := dtlcp.VerifParseClientHello(hsMsg(1, len(b), 0, 0, b))
+			if !ok {
+				return "badstep=" + st
+			}
+			cookie = dtlcp.VerifGenerateCookie(guess, peers[ci].String(), params)
 		}
-		from := net.Addr(peers[ci])
-		if p[3] != "p" {
+		from := peerOf(ci, 0) // a fresh value, as ReadFrom reports it
+		switch p[3] {
+		case "p":
+		case "q": // the peer's host, another port
+			if pk[ci] == 's' {
+				from = strAddr("203.0.113.9:999")
+			} else {
+				from = peerOf(ci, 1)
+			}
+		default:
 			from = strAddr("203.0.113.9:999")
 		}
 		body := hellos[hi].body(cookie, nil)
@@ -609,7 +784,11 @@ func execServer(desc string) string {
 			outs = append(outs, fmt.Sprintf("%d/%s/%s/%d/%d/%d", len(sizes), joinInts(types), joinInts(sizes), alerts, req, k))
 		}
 	}
-	return fmt.Sprintf("steps=%s flight=%s cb=%d", strings.Join(outs, ","), flight, cbBefore)
+	out := fmt.Sprintf("steps=%s flight=%s cb=%d", strings.Join(outs, ","), flight, cbBefore)
+	if havePk { // the address text each connection binds its cookies to
+		out += fmt.Sprintf(" ra=%s;%s", hx.Hex([]byte(peers[0].String())), hx.Hex([]byte(peers[1].String())))
+	}
+	return out
 }
 
 // ---------------------------------------------------------------------------- dispatch
@@ -878,7 +1057,13 @@ func genHook(o hx.Opts, emit func(string)) {
 		}
 		// other address (unrelated, one character changed, prefix, extension)
 		var oa []byte
-		switch r.Intn(5) {
+		switch r.Intn(6) {
+		case 5: // the same host, another port (where the address has the form host:port)
+			if i := bytes.LastIndexByte(addr, ':'); i >= 0 {
+				oa = append(append([]byte(nil), addr[:i+1]...), []byte(strconv.Itoa(1+r.Intn(65535)))...)
+			} else {
+				oa = randAddr(r)
+			}
 		case 0:
 			oa = randAddr(r)
 		case 1:
@@ -996,6 +1181,42 @@ func genHook(o hx.Opts, emit func(string)) {
 			emit(fmt.Sprintf("kind=secret cfg=%s n=%d calls=3", hx.Hex(cfg), n))
 		}
 	}
+	// no configured secret, Config.Rand = a given stream handed out in short reads (1 … 64 bytes per
+	// Read): connections whose streams share only a short prefix
+	for _, chunk := range []int{1, 2, 3, 7, 8, 15, 16, 17, 31, 32, 33, 64} {
+		for _, pre := range []int{0, 1, 2, 8, 15} {
+			n := 2 + r.Intn(2)
+			emit(fmt.Sprintf("kind=secret cfg=- n=%d calls=3 rand=%d/%s", n, chunk, hexJoin(randStreams(r, n, pre, 48+r.Intn(32)))))
+		}
+	}
+}
+
+// randStreams returns n byte streams of the given length without zero bytes that share their first
+// `pre` bytes and differ at every later position.
+func randStreams(r *hx.Rand, n, pre, length int) [][]byte {
+	base := r.Bytes(length)
+	out := make([][]byte, n)
+	for i := range out {
+		s := make([]byte, length)
+		for j := range s {
+			// low nibble never zero: no zero bytes, so a guessed secret padded with zeros is never
+			// the real one; streams differ in the high nibble (n < 16)
+			s[j] = base[j] | 0x01
+			if j >= pre {
+				s[j] ^= byte(i+1) << 4
+			}
+		}
+		out[i] = s
+	}
+	return out
+}
+
+func hexJoin(xs [][]byte) string {
+	ss := make([]string, len(xs))
+	for i, x := range xs {
+		ss[i] = hx.Hex(x)
+	}
+	return strings.Join(ss, ";")
 }
 
 func serverCase(cfg []byte, pa, pb []byte, hs []hello, steps []string) string {
@@ -1015,6 +1236,72 @@ func goodHello(r *hx.Rand) hello {
 		h.suites = []uint16{0xe053, 0xe013, 0x00ff}
 	}
 	return h
+}
+
+// randUDP returns the canonical text of a random UDP endpoint (port >= 10, so that the text minus
+// its last character is an endpoint too) and the kind of value the driver makes of it.
+func randUDP(r *hx.Rand) ([]byte, byte) {
+	port := 10 + r.Intn(65526)
+	switch r.Intn(5) {
+	case 0, 1:
+		kind := byte('u')
+		if r.Chance(35) {
+			kind = 'm'
+		}
+		return []byte(fmt.Sprintf("%d.%d.%d.%d:%d", 1+r.Intn(223), r.Intn(256), r.Intn(256), r.Intn(256), port)), kind
+	case 2:
+		return []byte(fmt.Sprintf("10.0.0.%d:%d", 1+r.Intn(9), port)), 'u'
+	case 3:
+		return []byte(fmt.Sprintf("[2001:db8::%x]:%d", 1+r.Intn(65535), port)), 'u'
+	default:
+		return []byte(fmt.Sprintf("[fe80::%x%%eth%d]:%d", 1+r.Intn(65535), r.Intn(10), port)), 'u'
+	}
+}
+
+// udpVariant returns a second endpoint related to pa: the same one (in some representation),
+// the same host with another port, another host with the same port, pa minus its last character
+// (a port that is a prefix), another zone, or an unrelated one.
+func udpVariant(r *hx.Rand, pa []byte) ([]byte, byte) {
+	i := bytes.LastIndexByte(pa, ':')
+	host, port := pa[:i], pa[i+1:]
+	v4 := pa[0] != '['
+	kind := func() byte {
+		if v4 && r.Chance(40) {
+			return 'm'
+		}
+		return 'u'
+	}
+	switch r.Intn(7) {
+	case 0:
+		if r.Chance(25) {
+			return pa, 's'
+		}
+		return pa, kind()
+	case 1, 2:
+		np := strconv.Itoa(1 + r.Intn(65535))
+		if np == string(port) {
+			np = strconv.Itoa(1 + (r.Intn(65535)+1)%65535)
+		}
+		return append(append([]byte(nil), host...), []byte(":"+np)...), kind()
+	case 3:
+		pb, k := randUDP(r)
+		j := bytes.LastIndexByte(pb, ':')
+		return append(append([]byte(nil), pb[:j+1]...), port...), k
+	case 4:
+		return pa[:len(pa)-1], kind()
+	case 5:
+		if z := bytes.IndexByte(host, '%'); z >= 0 { // "[fe80::x%ethN]": another zone, or none
+			nh := append([]byte(nil), host[:z]...)
+			if r.Bool() {
+				nh = append(nh, []byte("%wlan0")...)
+			}
+			nh = append(nh, ']')
+			return append(append(nh, ':'), port...), 'u'
+		}
+		return append(append([]byte(nil), host...), []byte(":"+strconv.Itoa(1+r.Intn(9)))...), kind()
+	default:
+		return randUDP(r)
+	}
 }
 
 func genServer(o hx.Opts, emit func(string)) {
@@ -1062,6 +1349,47 @@ func genServer(o hx.Opts, emit func(string)) {
 	emit(serverCase(nil, []byte("10.0.0.2:5000"), []byte("10.0.0.3:5000"), []hello{small}, []string{"a:0:-:p:1:2"}))
 	emit(serverCase(nil, []byte("10.0.0.2:5000"), []byte("10.0.0.3:5000"), []hello{small, g}, []string{"a:0:-:p:1:10", "a:0:r:p:1:3r", "a:1:-:p:1:4", "a:1:k0:p:1:2r", "a:1:-:p:1"}))
 
+	// --- peers as the net package reports them (*net.UDPAddr, address text made by the server
+	// itself): with a shared (configured) secret a cookie issued to one endpoint is refused at every
+	// other endpoint — same host/other port, other host/same port, one port text a prefix of the
+	// other, other zone — and a datagram from the peer's host but another port is not answered
+	for _, pr := range [][3]string{
+		{"192.0.2.7:40001", "192.0.2.7:40002", "uu"},
+		{"192.0.2.7:40001", "192.0.2.8:40001", "uu"},
+		{"192.0.2.7:4000", "192.0.2.7:40001", "um"},
+		{"192.0.2.7:40001", "192.0.2.7:40002", "mu"},
+		{"192.0.2.7:40001", "192.0.2.7:40002", "su"},
+		{"[2001:db8::7]:40001", "[2001:db8::7]:40002", "uu"},
+		{"[fe80::1%eth0]:5000", "[fe80::1%eth1]:5000", "uu"},
+		{"[fe80::1%eth0]:5000", "[fe80::1]:5000", "uu"},
+	} {
+		emit(serverCase(sec, []byte(pr[0]), []byte(pr[1]), []hello{g}, []string{"a:0:-:p:1", "b:0:k0:p:1", "b:0:k0:q:1", "b:0:k1:p:1"}) + " pk=" + pr[2])
+	}
+	// … and accepted at the same endpoint whatever the in-memory form of its address (4-byte,
+	// IPv4-mapped 16-byte, opaque)
+	for _, k := range []string{"uu", "um", "mu", "mm", "us", "sm"} {
+		emit(serverCase(sec, []byte("192.0.2.7:40001"), []byte("192.0.2.7:40001"), []hello{g}, []string{"a:0:-:p:1", "a:0:k0:q:1", "b:0:k0:p:1"}) + " pk=" + k)
+	}
+	// --- a server with cached sessions: a hello naming a cached session id goes through the cookie
+	// exchange like any other (cookieless / wrong cookie / on another connection), then resumes
+	{
+		sid := r.Bytes(32)
+		hc := hello{vers: 0x0101, random: r.Bytes(32), sid: sid, suites: []uint16{0xe013, 0xe053}, comp: []byte{0}}
+		hn := hc // the cached session's suite is not offered
+		hn.suites = []uint16{0xe053}
+		cache := " cache=" + hx.Hex(sid) + "/e013"
+		emit(serverCase(nil, []byte("10.0.0.2:5000"), []byte("10.0.0.3:5000"), []hello{hc}, []string{"a:0:-:p:1", "a:0:-:p:1", "b:0:-:p:1", "a:0:r:p:1", "b:0:k0:p:1", "a:0:k3:p:1"}) + cache)
+		emit(serverCase(sec, []byte("192.0.2.7:40001"), []byte("192.0.2.7:40002"), []hello{hc, hn}, []string{"a:1:-:p:1", "b:0:-:p:1", "b:1:k1:p:1", "b:0:k0:p:1", "b:1:k2:p:1"}) + cache + ";" + hx.Hex(r.Bytes(8)) + "/e053 pk=uu")
+		emit(serverCase(sec, []byte("10.0.0.2:5000"), []byte("10.0.0.2:5000"), []hello{hc, hn}, []string{"a:0:-:p:1:3", "b:1:-:p:2", "b:0:k0:p:1"}) + cache)
+	}
+	// --- no configured secret and a Config.Rand that makes short reads: cookies forged under a
+	// secret guessed from the first 0 … 15 bytes of the random stream are refused, as the first
+	// hello of a connection and later
+	for _, chunk := range []int{1, 2, 5, 16, 32} {
+		st := randStreams(r, 2, 1, 64)
+		emit(serverCase(nil, []byte("10.0.0.2:5000"), []byte("10.0.0.3:5000"), []hello{g}, []string{"a:0:-:p:1", "a:0:g1:p:1", "a:0:g0:p:1", "b:0:g2:p:1", "b:0:g8:p:1", "b:0:g15:p:1", "a:0:k2:p:1"}) + fmt.Sprintf(" rand=%d/%s", chunk, hexJoin(st)))
+	}
+
 	n := 40 * o.Scale
 	if o.Tier == "thorough" {
 		n = 1500 * o.Scale
@@ -1081,9 +1409,28 @@ func genServer(o hx.Opts, emit func(string)) {
 		} else if r.Chance(30) {
 			pb = pa[:len(pa)-1]
 		}
+		extra := ""
+		if r.Chance(45) { // peers the way the net package reports them
+			var ka, kb byte
+			pa, ka = randUDP(r)
+			pb, kb = udpVariant(r, pa)
+			extra += " pk=" + string([]byte{ka, kb})
+		}
 		base := goodHello(r)
 		base.random[31] = 1
 		base.sid = nil
+		sh0 := base // the shifted pair needs an empty session id
+		var cachedSids [][]byte
+		if r.Chance(30) { // the server has cached sessions; some hellos name them
+			if r.Bool() {
+				base.sid = r.Bytes(32)
+				cachedSids = append(cachedSids, base.sid)
+			}
+		}
+		randMode := len(cfg) == 0 && r.Chance(35)
+		if randMode {
+			extra += fmt.Sprintf(" rand=%d/%s", hx.Pick(r, []int{1, 1, 2, 3, 4, 8, 13, 16, 31, 32, 64}), hexJoin(randStreams(r, 2, r.Intn(3), 40+r.Intn(30))))
+		}
 		hs := []hello{base}
 		// variants of base: one covered field changed each
 		for f := 0; f < 5; f++ {
@@ -1103,7 +1450,17 @@ func genServer(o hx.Opts, emit func(string)) {
 			}
 			hs = append(hs, t)
 		}
-		_, sh := shiftPair(pa, base)
+		if cachedSids != nil || r.Chance(8) {
+			if r.Bool() {
+				cachedSids = append(cachedSids, hs[3].sid)
+			}
+			var es []string
+			for _, sid := range append(cachedSids, r.Bytes(1+r.Intn(32))) {
+				es = append(es, hx.Hex(sid)+"/"+fmt.Sprintf("%04x", hx.Pick(r, []uint16{0xe013, 0xe053, 0xe011})))
+			}
+			extra += " cache=" + strings.Join(es, ";")
+		}
+		_, sh := shiftPair(pa, sh0)
 		hs = append(hs, sh) // index 6: the shifted hello for pa minus its last byte
 		bv := byteVariants(r, base)
 		for k := 0; k < 6; k++ { // indices 7..12: single-byte variants (suite bytes favoured)
@@ -1139,9 +1496,13 @@ func genServer(o hx.Opts, emit func(string)) {
 			from := "p"
 			if r.Chance(10) {
 				from = "o"
+			} else if r.Chance(5) {
+				from = "q"
 			}
 			ref := "-"
 			switch x := r.Intn(10); {
+			case randMode && r.Chance(30):
+				ref = fmt.Sprintf("g%d", hx.Pick(r, []int{0, 1, 1, 2, 3, 4, 8, 15}))
 			case x < 3 || hvrs == 0:
 			case x < 5:
 				ref = fmt.Sprintf("k%d", r.Intn(hvrs))
@@ -1195,7 +1556,7 @@ func genServer(o hx.Opts, emit func(string)) {
 				owner = append(owner, own{c, hi})
 			}
 		}
-		cs := serverCase(cfg, pa, pb, hs, steps)
+		cs := serverCase(cfg, pa, pb, hs, steps) + extra
 		if silent {
 			cs += " rto=10"
 		}
